@@ -9,9 +9,9 @@ K = dict(SEED=1, LOSS=2, DUP=3, DELAY_MIN=4, DELAY_MAX=5, NBIDI=9, NUNI=10, STRE
          READ_MAX=13, READ_MODE=14, NDGRAM=15, DGRAM_SIZE=16, ECHO_BYTES=17, CANCEL=18, END_MODE=19, IDLE_MS=20,
          SEND_WINDOW=24, STREAM_RWND=25, RWND=26, MAX_BIDI=27, MAX_UNI=28, NACCEPTORS=30, WRITE_MODE=31,
          STOPPED_WAIT=32, HANG_OPS=33, SEND_BLOCK=34, DGRAM_SEND_BUF=35, READ_DELAY_US=36, STOP_AT=37,
-         RESET_AT=38, SPURIOUS=39, CLOSE_AT_US=40, IOERR_AFTER=41, IMPLICIT_FINISH=42, STOP_BY_DROP=43, MAX_TIME=52, KNOWN=902)
+         RESET_AT=38, SPURIOUS=39, CLOSE_AT_US=40, IOERR_AFTER=41, IMPLICIT_FINISH=42, STOP_BY_DROP=43, ZRTT=44, STOP_EVERY=45, EARLY_BYTES=46, MAX_TIME=52, KNOWN=902)
 KN = {v: k for k, v in K.items()}
-TAGS = {10, 20, 21, 22, 23, 24, 25, 26, 27, 28, 29, 30, 32, 33, 36, 37, 39, 40}
+TAGS = {10, 20, 21, 22, 23, 24, 25, 26, 27, 28, 29, 30, 32, 33, 35, 36, 37, 39, 40, 41, 43, 44}
 RULE = ("scripted client/server applications over one connection of the real quinn crate: uni/bidi streams with "
         "every read/write API variant, datagrams, several concurrent acceptors, tasks parked on operations that only "
         "a close can complete, small flow-control / stream-count windows (blocked writers, blocked openers), slow "
@@ -60,7 +60,7 @@ def gen(rng, n):
             d["SEND_BLOCK"] = rng.choice([50, 300])
         if rng.chance(1, 4):
             d["IMPLICIT_FINISH"] = 1
-        m = rng.below(8)
+        m = rng.below(10)
         if m == 1:      # blocked writers: small windows, slow readers
             d["STREAM_RWND"] = rng.choice([1, 100, 1500, 6000])
             if rng.chance(1, 2):
@@ -120,7 +120,12 @@ def gen(rng, n):
             if rng.chance(1, 2):
                 d["MAX_UNI"] = 1
             d["HANG_OPS"] = rng.below(32)
-        if rng.chance(1, 12):
+        elif m == 8:    # streams stopped by the peer and then just DROPPED by the sender, under a small stream limit:
+            #                 every stream must be released (RESET_STREAM on drop) or the later opens never complete
+            zr_stop_family(rng, d)
+        elif m == 9:    # 0-RTT accepted / rejected (C17): early uni + bidi streams, fresh streams afterwards
+            zr_family(rng, d)
+        if rng.chance(1, 12) and m < 8:
             # the client's socket starts failing: its driver must fail the connection, not just exit
             d["IOERR_AFTER"] = rng.range(3, 40)
         if d.get("END_MODE", 0) == 1:
@@ -128,6 +133,46 @@ def gen(rng, n):
             d.pop("HANG_OPS", None)
         cases.append(case_of(d))
     return cases
+
+
+def zr_stop_family(rng, d):
+    for k2 in ("LOSS", "DUP", "SEND_BLOCK", "IMPLICIT_FINISH", "RESET_AT"):
+        d.pop(k2, None)
+    d["DELAY_MAX"] = d["DELAY_MIN"]
+    d["NUNI"] = rng.range(3, 6)
+    d["NBIDI"] = 0
+    d["MAX_UNI"] = rng.choice([1, 1, 2])
+    d["STOP_AT"] = rng.choice([0, 0, 1, 1000])
+    d["STOP_EVERY"] = 1
+    d["STOP_BY_DROP"] = rng.below(2)
+    d["STREAM_RWND"] = rng.choice([1500, 6000])
+    d["STREAM_BYTES"] = rng.choice([5000, 20000])
+    d["WRITE_CHUNK"] = rng.choice([700, 4000])
+    d["WRITE_MODE"] = rng.choice([0, 1, 2])
+    d["READ_MAX"] = rng.choice([800, 4096])
+    d["READ_DELAY_US"] = rng.choice([0, 1000])
+    d["STOPPED_WAIT"] = rng.choice([0, 0, 1])
+    d["END_MODE"] = 0
+    d.pop("CLOSE_AT_US", None)
+
+
+def zr_family(rng, d, mode=None):
+    for k2 in ("LOSS", "DUP", "IMPLICIT_FINISH", "RESET_AT", "STOP_AT", "NDGRAM", "HANG_OPS", "CLOSE_AT_US",
+               "STREAM_RWND", "RWND", "SEND_WINDOW", "MAX_UNI", "MAX_BIDI", "READ_DELAY_US", "DGRAM_SEND_BUF"):
+        d.pop(k2, None)
+    d["ZRTT"] = mode if mode is not None else rng.choice([1, 2, 2])
+    d["DELAY_MAX"] = d["DELAY_MIN"]
+    d["NBIDI"] = rng.range(1, 2)
+    d["NUNI"] = rng.range(0, 2)
+    d["STREAM_BYTES"] = rng.choice([1, 900, 5000])
+    d["WRITE_CHUNK"] = rng.choice([300, 1000, 100000])
+    d["READ_MAX"] = rng.choice([10, 500, 100000]) if d["STREAM_BYTES"] <= 900 else rng.choice([800, 100000])
+    d["ECHO_BYTES"] = rng.choice([1, 700, 3000])
+    d["EARLY_BYTES"] = rng.choice([0, 1, 700, 3000])
+    d["STOPPED_WAIT"] = rng.choice([0, 1])
+    d["END_MODE"] = 0
+    if rng.chance(1, 3):
+        d["LOSS"] = rng.choice([10, 30])
 
 
 def project(case, outs):
